@@ -98,6 +98,10 @@ fn run_resource(sx: &sexpr::Sx) -> Vec<String> {
         // `(resource (STEPS) sus)`: the resource is created under a suspense boundary and read there by an effect (as a view would);
         // every line gets a field `sus=<0|1>`: the boundary's is_loading
         let under_sus = sx.list().len() > 2 && sx.list()[2].atom() == "sus";
+        // `(resource (STEPS) susout)`: the resource lives in the root scope and is READ (by an effect) under a suspense boundary that
+        // lives in a child scope; step `(unmount)` disposes that child scope (a page that is left); the resource goes on
+        let sus_out = sx.list().len() > 2 && sx.list()[2].atom() == "susout";
+        let mut holder = None;
         let mut boundary = None;
         // `(resource (STEPS) two)`: the dependencies are a PAIR on((d, d2), ..) and the fetch is started for d + d2; an even write goes
         // to d, an odd one to d2 (each so that the sum becomes the written value)
@@ -141,6 +145,17 @@ fn run_resource(sx: &sexpr::Sx) -> Vec<String> {
                 });
                 res = Some(r);
                 boundary = Some(scope.is_loading());
+            } else if sus_out {
+                let r = mk();
+                res = Some(r);
+                holder = Some(create_child_scope(|| {
+                    let ((), scope) = sycamore_futures::create_suspense_scope(|| {
+                        create_effect(move || {
+                            let _ = r.get_clone();
+                        });
+                    });
+                    boundary = Some(scope.is_loading());
+                }));
             } else {
                 res = Some(mk());
             }
@@ -173,7 +188,11 @@ fn run_resource(sx: &sexpr::Sx) -> Vec<String> {
                 started.borrow().len()
             );
             if let Some(b) = boundary {
-                line.push_str(&format!(" sus={}", b.get_untracked() as u8));
+                if b.is_alive() {
+                    line.push_str(&format!(" sus={}", b.get_untracked() as u8));
+                } else {
+                    line.push_str(" sus=gone");
+                }
             }
             out.push(line);
         };
@@ -198,6 +217,11 @@ fn run_resource(sx: &sexpr::Sx) -> Vec<String> {
                     if let Some(tx) = tx {
                         let v = started.borrow()[k];
                         let _ = tx.send(v);
+                    }
+                }
+                "unmount" => {
+                    if let Some(h) = holder.take() {
+                        root.run_in(|| h.dispose());
                     }
                 }
                 x => panic!("bad step {x}"),
